@@ -133,6 +133,51 @@ class Ctx:
         sys.stdout.write(out[-3000:])
         raise ToolError('TLC failed on %s (rc=%s)' % (module, rc))
 
+    # -- inductive invariants (Apalache) ---------------------------------
+    def apalache_start(self, module, obligations, subdir='impl'):
+        """Start Apalache on spec/<subdir>/<module>.tla for each (name, args, expect) in obligations — in the background,
+        one after the other, while the check drives the server.  expect: 'ok' (no error) or 'violated' (a vacuity
+        control that must fail).  Collect with apalache_wait()."""
+        import threading
+        wd = os.path.join(self.out, 'apalache-' + module)
+        os.makedirs(wd, exist_ok=True)
+        src = os.path.join(VERIF, 'spec', subdir)
+        for f in os.listdir(src):
+            if f.endswith('.tla'):
+                shutil.copy(os.path.join(src, f), wd)
+        results = []
+
+        def work():
+            for name, args, expect in obligations:
+                t = time.time()
+                try:
+                    p = subprocess.run(['timeout', '900', 'apalache-mc', 'check'] + args + [module + '.tla'], cwd=wd,
+                                       stdout=subprocess.PIPE, stderr=subprocess.STDOUT)
+                    out = p.stdout.decode(errors='replace')
+                    rc = p.returncode
+                except Exception as e:        # noqa
+                    out, rc = str(e), 255
+                got = 'ok' if 'The outcome is: NoError' in out and rc == 0 else ('violated' if 'The outcome is: Error' in out else 'toolerror')
+                open(os.path.join(wd, name + '.out'), 'w').write(out)
+                results.append({'obligation': name, 'expected': expect, 'outcome': got, 'wall_s': round(time.time() - t, 1)})
+        th = threading.Thread(target=work)
+        th.start()
+        return (th, results, module)
+
+    def apalache_wait(self, handle):
+        th, results, module = handle
+        th.join()
+        self.extra_cov.setdefault('apalache', []).extend(results)
+        self.extra_cov['obligations'] = self.extra_cov.get('obligations', 0) + len(results)
+        self.extra_cov['discharged'] = self.extra_cov.get('discharged', 0) + sum(1 for r in results if r['outcome'] == r['expected'])
+        bad = [r for r in results if r['outcome'] != r['expected']]
+        if any(r['outcome'] == 'toolerror' for r in bad):
+            raise ToolError('Apalache failed on %s: %s' % (module, bad))
+        for r in bad:
+            path = self.save_violation({'kind': 'model', 'module': module, 'obligation': r})
+            self.violations.append(('inductive invariant obligation %s of %s: expected %s, got %s' % (r['obligation'], module, r['expected'], r['outcome']), path))
+        return results
+
     # -- trace validation ------------------------------------------------
     def validate(self, trace, label=None, sample=True, scenario=None, module='FerrousTrace'):
         """Validate a recorded trace; returns True if accepted. Records violations / fired deviations."""
